@@ -267,3 +267,16 @@ pub fn idoms(c: &Cfg) -> String {
         .collect();
     format!("(idom {})", parts.join(" "))
 }
+
+/// Dominance frontiers and dominator-tree children of every block, sorted:
+/// `(dominfo (frontier (F..) (F..) ..) (children (C..) (C..) ..))`.
+pub fn dominfo(c: &Cfg) -> String {
+    let list = |v: Vec<&BasicBlock>| {
+        let mut x: Vec<usize> = v.iter().map(|b| b.index()).collect();
+        x.sort_unstable();
+        format!("({})", x.iter().map(|i| i.to_string()).collect::<Vec<_>>().join(" "))
+    };
+    let fr: Vec<String> = c.iter().map(|b| list(c.get_dominance_frontier(b))).collect();
+    let ch: Vec<String> = c.iter().map(|b| list(c.get_dominator_successors(b))).collect();
+    format!("(dominfo (frontier {}) (children {}))", fr.join(" "), ch.join(" "))
+}
